@@ -48,6 +48,10 @@ type Profile struct {
 	// PStopFalse: percent of plugin steps (with a cancel signal) given a stop condition that is a literal
 	// false spelling: a condition that never fires.
 	PStopFalse int
+	// IslandIgnoresCancel: the unrelated never-ending step of HangIsland ignores the cancel signal.
+	IslandIgnoresCancel bool
+	// SamePathTags: percent of steps (Tags profiles) with tagged values at the same path in two fields.
+	SamePathTags int
 	// ErrorPathWaits: (Tags profiles of C15) outputs may wait, with !wait-optional, for an error-path stage
 	// of a step (crashed / deploy_failed / a loop's failed). Where such a step never starts the engine
 	// never rules the stage out (known finding KF-C15-1), so only C15 asks for these fields.
@@ -354,6 +358,18 @@ func (g *genCtx) genPluginStep(id string) *Step {
 			if src.Kind == "plugin" {
 				tag := rapid.SampledFrom([]string{"wait-optional", "soft-optional"}).Draw(g.t, "tag_o_kind")
 				s.In = setField(s.In, "o", Opt(tag, StepRef(src.ID, "outputs", "success", "s")))
+			}
+		}
+		if len(g.prior) >= 2 && !g.item && g.pct(g.prof.SamePathTags, "tag_same_path") {
+			// two tagged values at the same place inside two fields of one stage (input.o and wait_for.o). The
+			// engine names the nodes of tagged values by the path inside the field only, so it refuses such a
+			// workflow ("node ... already exists"); if it accepts it, each value must still be its own.
+			a, b := g.prior[len(g.prior)-1], g.prior[len(g.prior)-2]
+			if a.Kind == "plugin" && b.Kind == "plugin" {
+				s.In = setField(s.In, "o", Opt("wait-optional", StepRef(a.ID, "outputs", "success", "s")))
+				s.WaitFor = Obj(F("o", Opt("wait-optional", StepRef(b.ID, "outputs", "success", "s"))))
+				g.p.SamePathTags = true
+				return s
 			}
 		}
 		if g.pct(g.prof.OptionalRequired, "tag_required") {
@@ -813,7 +829,14 @@ func GenProgram(t *rapid.T, prof *Profile, doc Doc) *Program {
 		p.Outputs = p.Outputs[1:]
 	}
 	if prof.HangIsland {
-		p.Steps = append(p.Steps, &Step{ID: "hang", Kind: "plugin", In: []Field{F("a", Lit(int64(1))), F("mode", Lit("hang"))}})
+		hang := &Step{ID: "hang", Kind: "plugin", In: []Field{F("a", Lit(int64(1))), F("mode", Lit("hang"))}}
+		if prof.IslandIgnoresCancel {
+			// ... and does not stop when asked to: the run has to close it after its closure timeout (0 or 10 ms)
+			hang.In = append(hang.In, F("on_cancel", Lit("ignore")))
+			c := rapid.SampledFrom([]int64{0, 0, 10}).Draw(t, "island_closure")
+			hang.Closure = &c
+		}
+		p.Steps = append(p.Steps, hang)
 	}
 	if prof.StopIf {
 		// shape A: `victim` hangs until `stopper` (which waits for the victim to be started) has finished
